@@ -43,7 +43,7 @@ closing tag) at nesting depth 0, 1 and 2 of an established stream, the verdict o
 real reader (regenerated on every run through real sessions) is `verdict` of the model — in
 particular an XML declaration is *not* skipped once the stream is established -/
 theorem C08_gen_verdicts :
-    ∃ t, Generated.C08.readerVerdicts = some t ∧ t.length = 43 ∧
+    ∃ t, Generated.C08.readerVerdicts = some t ∧ t.length = 61 ∧
       ∀ e ∈ t, factVerdict e.1 e.2.1 = some e.2.2 := by
   refine ⟨_, rfl, by decide, by decide⟩
 
@@ -155,42 +155,41 @@ theorem C08_constructs_any_output_state (cfg : Cfg) (fuel : Nat) (st : OutSt) (a
       = .error .comment := by
   constructor <;> simp [serveFC, handleInputStreamC, handleInputStream, RS.next, verdict, nsStream, hc, hcond]
 
-/-- `SetCloseDeadline` with a time in the future changes nothing: the session is served exactly
-as if the deadline had never been set (one invocation per element, nil on the peer's closing
-tag, …), for every state of the output -/
-def clearFuture (p : Prog) : Prog := { p with dl := if p.dl == 1 then 0 else p.dl }
+/-- two programs that differ at most in their `SetCloseDeadline` calls, which leave the input
+context in the same state -/
+def SameCtx (p q : Prog) : Prop :=
+  q = { p with dls := q.dls } ∧ expiredAfter p.dls false = expiredAfter q.dls false
 
-theorem C08_future_deadline_irrelevant (cfg : Cfg) : ∀ (fuel : Nat) (st : OutSt) (expired : Bool)
-    (rs : RS) (progs : List Prog),
-    serveFC cfg fuel st expired rs (progs.map clearFuture) = serveFC cfg fuel st expired rs progs := by
+/-- what `Serve` does depends on the deadline calls of the handlers only through the state they
+leave the input context in -/
+theorem serveFC_dls_congr (cfg : Cfg) (g : Prog → Prog) (hg : ∀ p, SameCtx p (g p))
+    (hg0 : g Prog.nop = Prog.nop) : ∀ (fuel : Nat) (st : OutSt) (expired : Bool)
+    (rs : RS) (ps : List Prog),
+    serveFC cfg fuel st expired rs (ps.map g) = serveFC cfg fuel st expired rs ps := by
   intro fuel
   induction fuel with
-  | zero => intro st expired rs progs; rfl
+  | zero => intro st expired rs ps; rfl
   | succ f ih =>
-    intro st expired rs progs
-    have hh : (progs.map clearFuture).headD Prog.nop = clearFuture (progs.headD Prog.nop) := by
-      cases progs <;> simp [clearFuture, Prog.nop]
-    have hstep : ∀ p : Prog, handleInputStreamC cfg st rs (clearFuture p) = handleInputStreamC cfg st rs p := by
+    intro st expired rs ps
+    have hh : (ps.map g).headD Prog.nop = g (ps.headD Prog.nop) := by
+      cases ps <;> simp [hg0]
+    have ht : (ps.map g).tail = ps.tail.map g := by cases ps <;> simp
+    have hstep : ∀ p, handleInputStreamC cfg st rs (g p) = handleInputStreamC cfg st rs p := by
       intro p
-      simp [handleInputStreamC, handleInputStream, handleElemC, handleElem, clearFuture]
-    have hplain : ∀ p : Prog, handleInputStream cfg rs (clearFuture p) = handleInputStream cfg rs p := by
+      rw [(hg p).1]; simp [handleInputStreamC, handleInputStream, handleElemC, handleElem]
+    have hplain : ∀ p, handleInputStream cfg rs (g p) = handleInputStream cfg rs p := by
       intro p
-      simp [handleInputStream, handleElem, clearFuture]
-    have hdl : ∀ p : Prog, ((clearFuture p).dl == 2) = (p.dl == 2) := by
-      intro p
-      by_cases h1 : p.dl = 1 <;> simp [clearFuture, h1]
+      rw [(hg p).1]; simp [handleInputStream, handleElem]
+    have hout : ∀ p w, outAfter st (g p) w = outAfter st p w := by
+      intro p w; rw [(hg p).1]; simp [outAfter]
+    have he : ∀ p, expiredAfter (g p).dls false = expiredAfter p.dls false := fun p => (hg p).2.symm
     unfold serveFC
-    simp only [hh, hstep, hplain, hdl]
-    have hout : ∀ p w, outAfter st (clearFuture p) w = outAfter st p w := by
-      intro p w; simp [outAfter, clearFuture]
-    simp only [hout]
+    simp only [hh, hstep, hplain, hout, he]
     split
     · rfl
     · split
       · rfl
       · rename_i inv w rs' _
-        have ht : (progs.map clearFuture).tail = progs.tail.map clearFuture := by
-          cases progs <;> simp
         cases inv with
         | none =>
           simp only [Option.isSome_none, Bool.false_eq_true, if_false, Bool.false_and]
@@ -198,6 +197,82 @@ theorem C08_future_deadline_irrelevant (cfg : Cfg) : ∀ (fuel : Nat) (st : OutS
         | some j =>
           simp only [Option.isSome_some, if_true, Bool.true_and]
           rw [ht, ih]
+
+theorem expiredAfter_all_future : ∀ (ds : List Nat) (e : Bool), ds ≠ [] → ds.all (· == 1) = true →
+    expiredAfter ds e = false
+  | [], _, h, _ => absurd rfl h
+  | [d], e, _, h => by
+    have : d = 1 := by simpa using h
+    subst this; simp [expiredAfter, isPastDl]
+  | d :: d' :: ds, e, _, h => by
+    have h' : (d' :: ds).all (· == 1) = true := by
+      simp only [List.all_cons, Bool.and_eq_true] at h ⊢; exact h.2
+    simp only [expiredAfter]
+    exact expiredAfter_all_future (d' :: ds) _ (by simp) h'
+
+/-- **every call replaces the context: the last call decides.**  Whatever calls came before —
+deadlines that have already passed included — and whatever the state of the context was, after
+a call with a time in the future the context is alive, after a call with a time that has passed
+it has ended: a second, later deadline *extends* the first -/
+theorem C08_deadline_last_wins (ds : List Nat) (d : Nat) (e : Bool) :
+    expiredAfter (ds ++ [d]) e =
+      (if isPastDl d then true else if d == 1 then false else expiredAfter ds e) := by
+  induction ds generalizing e with
+  | nil => simp [expiredAfter]
+  | cons x xs ih => simp only [List.cons_append, expiredAfter]; rw [ih]
+
+/-- `SetCloseDeadline` with a time in the future changes nothing: the session is served exactly
+as if the deadline had never been set (one invocation per element, nil on the peer's closing
+tag, …), for every state of the output -/
+def clearFuture (p : Prog) : Prog := { p with dls := if p.dls.all (· == 1) then [] else p.dls }
+
+theorem C08_future_deadline_irrelevant (cfg : Cfg) (fuel : Nat) (st : OutSt) (expired : Bool)
+    (rs : RS) (progs : List Prog) :
+    serveFC cfg fuel st expired rs (progs.map clearFuture) = serveFC cfg fuel st expired rs progs := by
+  refine serveFC_dls_congr cfg clearFuture ?_ (by simp [clearFuture, Prog.nop]) fuel st expired rs progs
+  intro p
+  refine ⟨rfl, ?_⟩
+  by_cases h : p.dls.all (· == 1) = true
+  · by_cases hn : p.dls = []
+    · simp [clearFuture, hn]
+    · simp only [clearFuture, h, if_true]
+      rw [expiredAfter_all_future p.dls false hn h]; rfl
+  · simp [clearFuture, h]
+
+/-- a handler that moves the deadline — any earlier calls, among them deadlines that have
+already passed, and then one with a time in the future — is served exactly like a handler that
+never set one: **a later deadline extends the earlier ones**, the session goes on handing
+elements to the handler and the peer's closing tag still ends `Serve` without error -/
+def dropExtended (p : Prog) : Prog :=
+  { p with dls := if p.dls.getLast? == some 1 then [] else p.dls }
+
+theorem C08_later_deadline_extends (cfg : Cfg) (fuel : Nat) (st : OutSt) (expired : Bool)
+    (rs : RS) (progs : List Prog) :
+    serveFC cfg fuel st expired rs (progs.map dropExtended) = serveFC cfg fuel st expired rs progs := by
+  refine serveFC_dls_congr cfg dropExtended ?_ (by simp [dropExtended, Prog.nop]) fuel st expired rs progs
+  intro p
+  refine ⟨rfl, ?_⟩
+  by_cases h : p.dls.getLast? = some 1
+  · simp only [dropExtended, h]
+    obtain ⟨ds, hds⟩ : ∃ ds, p.dls = ds ++ [1] := by
+      have := List.getLast?_eq_some_iff.mp h
+      exact this
+    rw [hds, C08_deadline_last_wins]; simp [expiredAfter, isPastDl]
+  · simp [dropExtended, h]
+
+/-- the same for calls made before `Serve` starts: whatever was set before, once the last call
+names a time in the future the session is served as if no deadline had ever been set -/
+theorem C08_deadline_before_serve (cfg : Cfg) (closed : Bool) (pre : List Nat) (inp : List Tok)
+    (progs : List Prog) :
+    serveCD cfg closed (pre ++ [1]) inp progs = serveC cfg closed inp progs ∧
+    serveCD cfg closed (pre ++ [2]) inp progs = { invs := [], written := [], result := .error .deadline } := by
+  constructor
+  · simp [serveCD, serveC, C08_deadline_last_wins, isPastDl]
+  · simp [serveCD, C08_deadline_last_wins, isPastDl, serveFC]
+
+example : expiredAfter [2, 1] false = false ∧ expiredAfter [1, 2] false = true ∧
+    expiredAfter [3, 1] false = false ∧ expiredAfter [2, 2, 1] false = false ∧
+    (dropExtended { ops := [.read], ret := .ok, dls := [2, 1] }).dls = [] := by decide
 
 /-- a deadline in the past ends `Serve` with the deadline error before the next element is
 looked at — also when that next token is the peer's closing tag -/
@@ -522,6 +597,77 @@ example : closes 0 [Tok.start ⟨"urn:ietf:params:xml:ns:xmpp-streams", "host-go
     .stop ⟨"urn:ietf:params:xml:ns:xmpp-streams", "host-gone"⟩, .stop ⟨nsStream, "error"⟩] = true ∧
     seCond [Tok.start ⟨"urn:ietf:params:xml:ns:xmpp-streams", "host-gone"⟩ [],
     .stop ⟨"urn:ietf:params:xml:ns:xmpp-streams", "host-gone"⟩, .stop ⟨nsStream, "error"⟩] = some "host-gone" := by
+  decide
+
+/-! ### received stream errors that carry an application-specific condition -/
+
+theorem skipElem_append : ∀ (body : List Tok) (d d' : Nat) (rest : List Tok),
+    depthAfter d body = some d' → skipElem d (body ++ rest) = skipElem d' rest := by
+  intro body
+  induction body with
+  | nil => intro d d' rest h; simp [depthAfter] at h; subst h; rfl
+  | cons t ts ih =>
+    intro d d' rest h
+    cases t with
+    | start n as => simp only [depthAfter] at h; simp only [List.cons_append, skipElem]; exact ih _ _ _ h
+    | stop n =>
+      cases d with
+      | zero => simp [depthAfter] at h
+      | succ k => simp only [depthAfter] at h; simp only [List.cons_append, skipElem]; exact ih _ _ _ h
+    | chars c => simp only [depthAfter] at h; simp only [List.cons_append, skipElem]; exact ih _ _ _ h
+    | comment c => simp only [depthAfter] at h; simp only [List.cons_append, skipElem]; exact ih _ _ _ h
+    | procInst a b => simp only [depthAfter] at h; simp only [List.cons_append, skipElem]; exact ih _ _ _ h
+    | directive c => simp only [depthAfter] at h; simp only [List.cons_append, skipElem]; exact ih _ _ _ h
+
+/-- one more child of a stream error is consumed as a whole — whatever it contains, however deep
+— and only a child in the stream-error namespace other than `<text/>` changes the condition:
+an **application-specific condition** (any other namespace) at any position, with any content,
+leaves the condition what the peer's defined condition says -/
+theorem C08_stream_error_child (f : Nat) (cur : String) (n : Name) (as : List Attr) (body rest : List Tok)
+    (hb : depthAfter 0 body = some 0) :
+    seCondF (f + 1) cur (.start n as :: (body ++ .stop n :: rest))
+      = seCondF f (if n.space == nsStreams && n.loc != "text" then n.loc else cur) rest := by
+  simp only [seCondF]
+  rw [skipElem_append body 0 0 _ hb]
+  simp [skipElem]
+
+/-- a defined condition followed by an application-specific condition with arbitrary (balanced)
+content, then the end of the error: the error is the defined condition `c` -/
+theorem C08_stream_error_app_condition (c : String) (hc : c ≠ "text") (as as' : List Attr) (an : Name)
+    (han : an.space ≠ nsStreams) (body rest : List Tok) (hb : depthAfter 0 body = some 0) (en : Name) :
+    seCond ([.start ⟨nsStreams, c⟩ as, .stop ⟨nsStreams, c⟩] ++ (.start an as' :: (body ++ .stop an :: .stop en :: rest)))
+      = some c ∧
+    seCond ((.start an as' :: (body ++ [.stop an])) ++ [.start ⟨nsStreams, c⟩ as, .stop ⟨nsStreams, c⟩] ++ .stop en :: rest)
+      = some c := by
+  have hne : (an.space == nsStreams) = false := by simpa using han
+  have hct : (c != "text") = true := by simpa using hc
+  constructor
+  · unfold seCond
+    simp only [List.cons_append, List.nil_append, List.length_cons, List.length_append]
+    have h1 := C08_stream_error_child (body.length + (rest.length + 1 + 1) + 1 + 1 + 1) "" ⟨nsStreams, c⟩ as [] (.start an as' :: (body ++ .stop an :: .stop en :: rest)) rfl
+    simp only [List.nil_append] at h1
+    rw [show body.length + (rest.length + 1 + 1) + 1 + 1 + 1 + 1 = (body.length + (rest.length + 1 + 1) + 1 + 1 + 1) + 1 from rfl, h1]
+    rw [C08_stream_error_child _ _ an as' body (.stop en :: rest) hb]
+    simp [seCondF, hne, hct]
+  · unfold seCond
+    simp only [List.cons_append, List.nil_append, List.append_assoc, List.length_cons, List.length_append]
+    rw [C08_stream_error_child _ _ an as' body _ hb]
+    simp only [hne, Bool.false_and, Bool.false_eq_true, if_false]
+    have h2 := C08_stream_error_child (body.length + (rest.length + 1 + 1 + 1 + 1)) "" ⟨nsStreams, c⟩ as []
+      (.stop en :: rest) rfl
+    simp only [List.nil_append] at h2
+    rw [h2]
+    show seCondF ((body.length + (rest.length + 1 + 1 + 1)) + 1) _ _ = _
+    simp [seCondF, hct]
+
+example : seCond [Tok.start ⟨nsStreams, "conflict"⟩ [], .stop ⟨nsStreams, "conflict"⟩,
+      .start ⟨"urn:example", "replaced-by-new-login"⟩ [], .stop ⟨"urn:example", "replaced-by-new-login"⟩,
+      .stop ⟨nsStream, "error"⟩] = some "conflict" ∧
+    seCond [Tok.start ⟨"urn:example", "app"⟩ [], .start ⟨"urn:example", "d"⟩ [], .chars "x", .stop ⟨"urn:example", "d"⟩,
+      .stop ⟨"urn:example", "app"⟩, .start ⟨nsStreams, "text"⟩ [], .chars "bye", .stop ⟨nsStreams, "text"⟩,
+      .start ⟨nsStreams, "host-gone"⟩ [], .stop ⟨nsStreams, "host-gone"⟩, .stop ⟨nsStream, "error"⟩] = some "host-gone" ∧
+    seCond [Tok.start ⟨"urn:example", "only"⟩ [], .stop ⟨"urn:example", "only"⟩, .stop ⟨nsStream, "error"⟩] = some "" ∧
+    seCond [Tok.start ⟨nsStreams, "reset"⟩ [], .stop ⟨nsStreams, "reset"⟩, .start ⟨"urn:example", "open"⟩ []] = none := by
   decide
 
 /-! ### responses to pending local requests -/
